@@ -19,3 +19,18 @@ REGISTRY = {
         "note": "reference sums prior x Poisson over all K^m assignments using math.lgamma; grids of 4 and 6 points; " + _ARGS,
     },
 }
+
+def _mc(technique, text, note=_ARGS):
+    return {"level": "model_checking", "technique": technique, "text": text, "note": note}
+
+
+REGISTRY.update({
+    "C02": _mc("explicit-state enumeration of inputs x irrelevant-data variants, whole-TableCollection diff oracle with allow-list",
+               "Every bounded ARG x mutation menu (recurrent and above-root mutations) x 8 metadata/population/individual/migration/provenance variants x methods x set_metadata x singletons_phased is dated and the complete input and output table collections are diffed against an explicit allow-list; exhaustive below the bound."),
+    "C03": _mc("explicit-state enumeration of inputs x every internal-sample / historical-leaf pattern x option product, exact per-sample oracle",
+               "Every bounded ARG x every single and pair of internal nodes flagged as sample x historical leaves x min_branch_length {1e-8,0.5,2,5 ranks} x constr_iterations {None,0,1,1000} x methods; each sample's output time must equal max(input, max_child fl(out+mbl)) bit-exactly. Pushes are actually driven (tens of thousands observed per run)."),
+    "C04": _mc("explicit-state enumeration of inputs x option product, fit-vs-metadata equality oracle and recomputed grid moments",
+               "Every bounded ARG x mutation menu (incl. above-root => NaN posteriors) x H x methods x set_metadata {None,True} x VG option menu / both probability spaces; decoded metadata is compared exactly with the fit object, inside_outside rows are re-normalised and their moments recomputed independently."),
+    "C05": _mc("explicit-state enumeration of inputs x complete product of max_iterations, max_shape, rescaling, phasing; predicate oracle on the fit",
+               "Every bounded ARG x Mp menu (zero-mutation edges, single-mutation inputs) x H x diploid individuals x {1,2,25} iterations x max_shape {1.5,2,10,1000} x rescaling {off,2,default} x singletons_phased; properness, cap and phase range checked on every fit; the cap is seen binding ~2e5 times per quick run."),
+})
